@@ -177,6 +177,8 @@ impl<'a> Drive<'a> {
             failure_persistence: None,
             rng_seed: RngSeed::Fixed(seed),
             max_shrink_iters: SHRINK_ITERS.load(std::sync::atomic::Ordering::Relaxed),
+            // a failure that costs a time-out per evaluation (the agent hangs) must not eat the watchdog while shrinking
+            max_shrink_time: 90_000,
             max_global_rejects: 1_000_000,
             ..Config::default()
         };
@@ -229,6 +231,56 @@ impl<'a> Drive<'a> {
             Err(TestError::Abort(reason)) => {
                 stats.unfreeze();
                 stats.inconclusive.push(format!("{}: generator aborted: {}", engine, reason));
+            }
+        }
+    }
+}
+
+impl<'a> Drive<'a> {
+    /// Evaluate the cases addressed by the files of `<base>/<target>/` for every base directory in
+    /// VERIF_WORDS_DIRS (the committed seed corpus of the fuzz target, and in the thorough tier the corpus
+    /// and the crash artefacts of the campaign). Files are split over the workers. A failing file becomes
+    /// an ordinary violation whose replay holds the decoded case for `engine`.
+    pub fn run_words<C, D, F>(&mut self, engine: &str, target: &str, decode: D, eval: F)
+    where
+        C: Debug + Serialize + Clone,
+        D: Fn(&mut crate::words::Words) -> Option<C>,
+        F: Fn(&C, &mut Stats) -> Outcome,
+    {
+        if self.params.replay.is_some() {
+            return;
+        }
+        let dirs = std::env::var("VERIF_WORDS_DIRS").unwrap_or_default();
+        let mut files: Vec<std::path::PathBuf> = Vec::new();
+        for base in dirs.split(':').filter(|d| !d.is_empty()) {
+            if let Ok(rd) = std::fs::read_dir(std::path::Path::new(base).join(target)) {
+                files.extend(rd.flatten().map(|e| e.path()).filter(|p| p.is_file()));
+            }
+        }
+        files.sort();
+        let mut failed: std::collections::BTreeSet<String> = Default::default();
+        for (i, f) in files.iter().enumerate() {
+            if (i as u32) % self.params.workers.max(1) != self.params.worker {
+                continue;
+            }
+            let data = match std::fs::read(f) {
+                Ok(d) => d,
+                Err(_) => continue,
+            };
+            let case = match decode(&mut crate::words::Words::new(&data)) {
+                Some(c) => c,
+                None => continue,
+            };
+            self.stats.eval();
+            self.stats.class(&format!("corpus-file:{}", target));
+            let stats = &mut *self.stats;
+            let o = guarded(|| eval(&case, stats));
+            if let Outcome::Fail { signature, detail } = o {
+                if self.known.is_known(&signature) {
+                    self.stats.known(&signature);
+                } else if failed.insert(signature.clone()) || f.file_name().map(|n| n.to_string_lossy().starts_with("crash-")).unwrap_or(false) {
+                    self.stats.violation(Violation { signature, detail, replay: serde_json::json!({"engine": engine, "case": case, "from_words_file": f.display().to_string()}) });
+                }
             }
         }
     }
